@@ -274,7 +274,7 @@ class Model(object):
                 out[:,idx] = self._apply_func(func,
                                               func_range_geometry,
                                               func_domain_geometry,
-                                              item, is_par=True,
+                                              item, is_par=is_par,
                                               **kwargs)
             return Samples(out, geometry=func_range_geometry)
         
